@@ -201,6 +201,11 @@ func (l *vLightning) RebalancePayment(payreq string, channel string, maxTotalCLT
 	p := vPay{payreq: payreq, scid: channel, limit: maxTotalCLTVDelta, height: l.w.lastHeight, heightN: l.w.heightCount,
 		validatedBefore: l.w.validated}
 	zzverif.Effect("pay_claim", payreq, channel, maxTotalCLTVDelta)
+	// the call may take longer than the action's retry window (the peer holds the HTLC): deadlines of
+	// pending contexts expire while it runs
+	if zzverif.Bool("pay.slow") {
+		zzverif.ExpireDeadlines()
+	}
 	if zzverif.Bool("pay.err") {
 		// an error does not tell whether an HTLC went out (RPC error while the payment is pending)
 		if zzverif.Bool("pay.err.outstanding") {
@@ -680,6 +685,8 @@ type vEnv struct {
 // newEnv wires a SwapServices value exactly like NewSwapServices does, over the stubs.
 func newEnv(bitcoinEnabled, liquidEnabled bool) *vEnv {
 	w := newWorld()
+	// time passes only inside stubs that say so (pay.slow); see zzverif.DeadlineControl
+	zzverif.DeadlineControl()
 	st := &vStore{w: w, recs: map[string]*SwapStateMachine{}}
 	w.storeRef = st
 	pol := newPolicy(w)
